@@ -337,7 +337,7 @@ def run(v):
     # disturbing the live stream (hostile class 'duplicate_request': witness and probe must still be served)
     from . import conn, families
     conn.check(v, 'C13', families.FAMILIES['C13'], also=('C08.stream_parity', 'C17.ids_restart_at_first_id', 'C12.probe_served',
-                                                          'C01.all_delivered_at_quiescence', 'C01.deliver_is_next'))
+                                                          'C01.all_delivered_at_quiescence', 'C01.deliver_is_next', 'C01.correlation'))
     v.setc('traces_validated_against_impl', v.coverage.get('spec_transitions_replayed', 0) + v.coverage.get('traces_validated_against_impl', 0))
     v.setc('exhaustive', True)
     v.setc('rule', 'every transition of the complete TLC state graph of StreamIds.tla (MaxId 7 and 15, both parities) '
